@@ -210,6 +210,52 @@ def do_history(hist, out):
             o.write(json.dumps({'rec': 'history', 'id': h['id'], 'ops': ops}, separators=(',', ':')) + '\n')
 
 
+def xitems(sents):
+    """the items of the first sentences (every 7th), each listed once"""
+    acc = []
+    seen = set()
+    for n, line in enumerate(open(sents)):
+        if n % 7 and n > 40:
+            continue
+        sub = []
+        subitems(dec_sent(json.loads(line)['s']), sub)
+        for x in sub + twin_items():
+            if isinstance(x, (Operator, Quantifier)):
+                continue
+            k = json.dumps(enc_item(x))
+            if k not in seen:
+                seen.add(k)
+                acc.append(x)
+    return acc + [Predicate.Identity, Predicate.Existence, Predicate.Identity(Constant(0, 0), Constant(1, 0))]
+
+
+def do_xdump(sents, pkl):
+    items = xitems(sents)
+    for x in items:
+        hash(x)                       # the hash is taken (and cached) before pickling
+        x.ident
+    with open(pkl, 'wb') as f:
+        pickle.dump([(json.dumps(enc_item(x)), pickle.dumps(x)) for x in items], f)
+
+
+def do_xload(sents, pkl, out):
+    """runs in ANOTHER interpreter process (other PYTHONHASHSEED) than do_xdump"""
+    with open(pkl, 'rb') as f:
+        blobs = pickle.load(f)
+    here = {json.dumps(enc_item(x)): x for x in xitems(sents)}
+    with open(out, 'w') as o:
+        for n, (k, blob) in enumerate(blobs):
+            want = here[k]
+            rec = {'rec': 'xpickle', 'id': f'x{n}', 'item': json.loads(k)}
+            try:
+                got = pickle.loads(blob)
+                rec.update(loaded=enc_item(got), eq=b(got == want and want == got), hash_eq=b(hash(got) == hash(want)),
+                           in_set=b(got in {want} and want in {got}))
+            except Exception as e:
+                rec.update(loaded=['!', type(e).__name__], eq=0, hash_eq=0, in_set=0)
+            o.write(json.dumps(rec, separators=(',', ':')) + '\n')
+
+
 if __name__ == '__main__':
     mode = sys.argv[1]
-    {'matrix': do_matrix, 'rebuild': do_rebuild, 'history': do_history}[mode](*sys.argv[2:])
+    {'matrix': do_matrix, 'rebuild': do_rebuild, 'history': do_history, 'xdump': do_xdump, 'xload': do_xload}[mode](*sys.argv[2:])
